@@ -268,6 +268,16 @@ impl Monitor for C06 {
                 }
             }
         }
+        // one f64 trial in six is quoted in units of 2^-70 or 2^-300: all three views are exactly
+        // scale-free, an absolute threshold (a denominator "below epsilon") is not
+        let mut xs = xs;
+        if !exact && rng.chance(1, 6) {
+            let s = 2f64.powi(*rng.pick(&[-70, -300]));
+            for x in xs.iter_mut() {
+                *x *= s;
+            }
+            out.count("f64_trials_in_tiny_units", 1);
+        }
         out.key(mix(hash_str(&format!("{:?}{}", k, exact)), gen::hash_f64s(&xs)));
         if idx % 127 == 0 {
             out.sample(format!("{} at {} on {:?}: {} values, first {:?}", Spec::leaf(k).show(), if exact { "Xq" } else { "f64" }, class, xs.len(), &xs[..xs.len().min(10)]));
